@@ -326,7 +326,7 @@ Definition parse_start_line (line : bytes) : res start_line :=
 Definition parse_header_line (line : bytes) : res header :=
   match index_byte ":"%char line with
   | None => Err
-  | Some pos => Ok {| h_name := firstn pos line; h_val := HRaw (trim_space (skipn (S pos) line)) |}
+  | Some pos => Ok {| h_name := firstn pos line; h_val := HRaw (trim_space_go (skipn (S pos) line)) |}
   end.
 
 (* header lines until the empty line; structurally recursive on [fuel] = number of bytes + 1
